@@ -848,7 +848,7 @@ func (Area) Gen(r *rand.Rand, tier string, emit func(string)) {
 	// 2b. concurrent use of one real pool (all counts must be zero whatever the schedule)
 	nconc := 40
 	if tier == "thorough" {
-		nconc = 400
+		nconc = 1000
 	}
 	for k := 0; k < nconc; k++ {
 		emit(fmt.Sprintf("conc %d %d %d", r.Intn(1_000_000), 2+r.Intn(7), 20+r.Intn(200)))
@@ -857,7 +857,7 @@ func (Area) Gen(r *rand.Rand, tier string, emit func(string)) {
 	// 3. seeded random histories, biased towards re-adding after failures/removals with calls in flight
 	n, maxOps, nNames := 1200, 12, 3
 	if tier == "thorough" {
-		n, maxOps, nNames = 4000, 30, 4
+		n, maxOps, nNames = 15000, 30, 4
 	}
 	for k := 0; k < n; k++ {
 		cfg := common_pick(r, cfgs)
